@@ -182,7 +182,16 @@ CallChecks(e) ==
     [] e.op = "spine_types" -> << <<"spine_types", e.res = SpineTypes(e.args.alltypes, SetOf(e.args.types))>> >>
     [] e.op = "spine_ids"  -> << <<"spine_ids", e.res = SpineIds>> >>
     [] e.op = "iter"       -> << <<"iterate", IF M = 0 THEN ~e.res.ok ELSE e.res.ok /\ e.res.v = [j \in 1..M |-> j]>> >>
-    [] e.op = "iterpairs"  -> << <<"iterate.two_iterators", IF M = 0 THEN ~e.res.ok ELSE e.res.ok /\ e.res.v = [j \in 1..M |-> <<j, j>>]>> >>
+    [] e.op = "iterpairs"  -> \* overlapping iterations: two iterators advanced alternately, a nested loop (the first 196 pairs), an iteration
+                              \* resumed after another complete one.  C07 states the values (1..M); C14 states that the iterations do not
+                              \* disturb one another, i.e. each behaves like the single iteration logged next to it
+                              LET r == e.res  n == Len(r.single)
+                                  prod == [k \in 1..(IF n * n > 196 THEN 196 ELSE n * n) |-> <<r.single[((k - 1) \div n) + 1], r.single[((k - 1) % n) + 1]>>] IN
+                              << <<"iterate.two_iterators", IF M = 0 THEN ~r.ok ELSE r.ok /\ r.v = [j \in 1..M |-> <<j, j>>]>>,
+                                 <<"iterate.overlapping", IF M = 0 THEN ~r.ok ELSE r.ok /\ r.mid = [j \in 1..M |-> j] /\ r.first \o r.rest = [j \in 1..M |-> j]>>,
+                                 <<"call.iterations_independent", r.ok => /\ r.v = [j \in 1..n |-> <<r.single[j], r.single[j]>>]
+                                                                          /\ r.nested = prod
+                                                                          /\ r.mid = r.single /\ r.first \o r.rest = r.single>> >>
     [] e.op = "mcount"     -> << <<"measures_count", IF M = 0 THEN ~e.res.ok ELSE e.res.ok /\ e.res.v = M>> >>
     [] e.op = "graph"      -> << <<"graph.ok", e.res.ok>>,
                                  <<"graph.ranks", e.res.ok => e.res.ranks = GraphRanks>>,
